@@ -82,11 +82,26 @@ type Sched struct {
 	OnAbort func()
 }
 
-func New(vec []uint16) *Sched {
-	s := &Sched{vec: vec, MaxYields: 5000, cur: -1}
-	s.trace = make([]traceEnt, 0, 8192)
+func New(vec []uint16) *Sched { return NewLimit(vec, 5000) }
+
+// NewLimit is New with a different bound on the number of yields per run.
+func NewLimit(vec []uint16, maxYields int) *Sched {
+	s := &Sched{vec: vec, MaxYields: maxYields, cur: -1}
+	s.trace = make([]traceEnt, 0, maxYields+4*MaxTasks)
 	s.KeyName = func(key interface{}) string { return fmt.Sprintf("%p", key) }
 	return s
+}
+
+// GenVector draws a schedule vector of n entries in which roughly density
+// percent are context switches (non-zero).
+func GenVector(intn func(int) int, n, density int) []uint16 {
+	v := make([]uint16, n)
+	for i := range v {
+		if intn(100) < density {
+			v[i] = uint16(1 + intn(63))
+		}
+	}
+	return v
 }
 
 // ---------------------------------------------------------------- futex gates
@@ -232,10 +247,30 @@ func (s *Sched) pick() int {
 	}
 	choice := 0
 	if s.pos < len(s.vec) {
-		choice = int(s.vec[s.pos]) % k
+		choice = int(s.vec[s.pos])
 	}
 	s.pos++
-	return cand[choice]
+	// entry 0 = the current task goes on (so an all-zero or exhausted vector runs
+	// every task to its next blocking point in task order); entry c > 0 = switch
+	// to the c-th other candidate
+	cur := s.cur
+	curIdx := -1
+	for i := 0; i < k; i++ {
+		if cand[i] == cur {
+			curIdx = i
+		}
+	}
+	if curIdx < 0 {
+		return cand[choice%k]
+	}
+	if choice == 0 || k == 1 {
+		return cur
+	}
+	o := (choice - 1) % (k - 1)
+	if o >= curIdx {
+		o++
+	}
+	return cand[o]
 }
 
 // step is executed by the baton holder me: choose the next task and hand over.
